@@ -76,7 +76,21 @@ def r1_what_is_written(w):
         v = c.view(b)
         recv = v.describe_operand(t['args'][0])
         cons = {'fn': b.short, 'call': p, 'receiver': recv}
-        if re.match(r'^call:typstyle_core::\{impl#\d+\}::new\(call:typstyle::fmt::\{impl#\d+\}::to_config\(field:typstyle::cli::CliArguments\.style\)\)$', recv):
+        # receiver: Typstyle::new(<option mapping of args.style>), possibly built once and cloned per file
+        CL = re.compile(r'Clone>::clone$|Clone::clone$|Deref>::deref$|Deref::deref$|::borrow$')
+        from rules import c16
+        tc = c16._to_config(c)
+        news = v.pv.through(v.pv.origins_operand(t['args'][0]), CL)
+        via_mapping = bool(news)
+        for o in news:
+            if not (o[0] == 'call' and not o[2] and (resolved_path(v.pv.call_term(o)) or '').endswith('Typstyle::new')):
+                via_mapping = False
+                continue
+            srcs = v.pv.through(v.pv.origins_operand(v.pv.call_term(o)['args'][0]), CL)
+            if not (srcs and all(x[0] == 'call' and not x[2] and resolved_id(v.pv.call_term(x)) == tc.id
+                                 and v.describe_operand(v.pv.call_term(x)['args'][0]) in ('field:typstyle::cli::CliArguments.style', '&field:typstyle::cli::CliArguments.style') for x in srcs)):
+                via_mapping = False
+        if re.match(r'^call:typstyle_core::\{impl#\d+\}::new\(call:typstyle::fmt::\{impl#\d+\}::to_config\(field:typstyle::cli::CliArguments\.style\)\)$', recv) or via_mapping:
             r.ok(cons, 'Typstyle::new(args.style.to_config())')
         else:
             r.bad(cons, '%s|config' % b.short, 'library call in %s is not configured by the option mapping of args.style: %s' % (b.short, recv), b.loc(t['span']))
@@ -200,10 +214,10 @@ def _ext_guard(v, bi):
     """block dominated by the true edge of Option<&OsStr>::eq(path.extension(), Some("typ".as_ref()))"""
     b = v.b
     asref = re.compile(r'AsRef<.*>>::as_ref$|AsRef<.*> for str>::as_ref$|::as_ref$|OsStr::new$')
-    for atom, vals, sw in v.guards(bi):
+    for atom, vals, sw in v.guards_ext(bi):
         if vals != {True}:
             continue
-        for o in v.pv.peel(v.pv.origins_operand(b.blocks[sw]['term']['discr'])):
+        for o in v.pv.peel(v.pv.origins_operand(v.guard_operand((atom, vals, sw)))):
             if o[0] != 'call':
                 continue
             t = v.pv.call_term(o)
@@ -249,7 +263,7 @@ def r3_eligibility(w):
     if not body_calls:
         raise AnchorMissing('read/format/write calls inside the walk loop')
     for bi, t in body_calls:
-        gs = v.guards(bi)
+        gs = v.guards_ext(bi)
         is_file = any(a.startswith('call:std::fs::{impl#') and 'is_file' in a and vals == {True} for a, vals, _ in gs) or \
             any('is_file' in a and 'file_type' in a and vals == {True} for a, vals, _ in gs)
         ext = _ext_guard(v, bi)
@@ -418,16 +432,44 @@ def r4_error_isolation(w):
                 if v.label_values(sw, label) == {False}:
                     zero_edges.add((sw, tgt))
         after = [s_ for (x, s_) in exits if x == sw_of(b, h)]
-        seen, work = set(), list(after)
+        # the walk remembers which variant a Result local was last built as, so that `helper()?` (expanded: `r = Err(..); match branch(r) {..}`) is not
+        # followed along the Continue edge after an Err was built
+        seen, visited, work = set(), set(), [(s_, ()) for s_ in after]
         while work:
-            x = work.pop()
-            if x in seen:
+            x, st8 = work.pop()
+            if (x, st8) in visited:
                 continue
+            visited.add((x, st8))
             seen.add(x)
-            for s_ in b.succs(x):
+            known = dict(st8)
+            for stm in b.blocks[x]['stmts']:
+                if stm['s'] == 'assign' and not stm['p']['proj']:
+                    if stm['rv']['r'] == 'agg' and stm['rv'].get('vname') in ('Ok', 'Err', 'Some', 'None'):
+                        known[stm['p']['l']] = stm['rv']['vname']
+                    elif stm['rv']['r'] == 'use' and stm['rv']['op'].get('o') in ('move', 'copy') and not stm['rv']['op']['p']['proj'] and stm['rv']['op']['p']['l'] in known:
+                        known[stm['p']['l']] = known[stm['rv']['op']['p']['l']]
+                    elif stm['rv']['r'] == 'discr' and not stm['rv']['p']['proj'] and stm['rv']['p']['l'] in known:
+                        known[stm['p']['l']] = ('discr', known[stm['rv']['p']['l']])
+                    else:
+                        known.pop(stm['p']['l'], None)
+            tt = b.blocks[x]['term']
+            if tt['t'] == 'call' and not tt['dest']['proj']:
+                a0 = tt['args'][0] if tt['args'] else None
+                if re.search(r'Try>?::branch$', callee_path(tt) or '') and a0 and a0.get('o') in ('move', 'copy') and not a0['p']['proj'] and a0['p']['l'] in known:
+                    known[tt['dest']['l']] = 'Continue' if known[a0['p']['l']] in ('Ok', 'Some') else 'Break'
+                else:
+                    known.pop(tt['dest']['l'], None)
+            succs = list(b.succs(x))
+            if tt['t'] == 'switch' and tt['discr'].get('o') in ('move', 'copy') and not tt['discr']['p']['proj']:
+                kv = known.get(tt['discr']['p']['l'])
+                if isinstance(kv, tuple) and kv[0] == 'discr' and kv[1] in ('Continue', 'Break'):
+                    want = 0 if kv[1] == 'Continue' else 1
+                    succs = [tg for val, tg in tt['targets'] if val == want] or succs
+            nst = tuple(sorted((k, v_) for k, v_ in known.items() if isinstance(k, int)))
+            for s_ in succs:
                 if b.blocks[s_]['cleanup'] or (x, s_) in zero_edges or s_ in blocks:
                     continue
-                work.append(s_)
+                work.append((s_, nst))
         skipped = [bi for bi in sorted(seen) for st in b.blocks[bi]['stmts']
                    if st['s'] == 'assign' and st['p']['l'] == 0 and not st['p']['proj'] and st['rv']['r'] == 'agg' and st['rv'].get('vname') == 'Ok']
         cons = {'fn': b.short, 'error_counter_test_at': sorted(tests), 'ok_returns_not_behind_it': skipped}
@@ -516,12 +558,12 @@ def _counter_guards_err(c, v, counters):
         if blk['cleanup']:
             continue
         for s in blk['stmts']:
-            if s['s'] == 'assign' and s['p']['l'] == 0 and not s['p']['proj'] and s['rv']['r'] == 'agg' and s['rv'].get('vname') == 'Err':
-                for atom, vals, sw in v.guards(bi):
+            if s['s'] == 'assign' and not s['p']['proj'] and s['rv']['r'] == 'agg' and s['rv'].get('vname') == 'Err' and (s['p']['l'] == 0 or blk.get('inl')):
+                # (an Err built in an expanded helper - `ensure_no_errors(count)?` - reaches the return through `?`)
+                for atom, vals, sw in v.guards_ext(bi):
                     if atom.startswith(('binop:Gt(', 'binop:Ne(', 'binop:Ge(')) and vals == {True}:
-                        t = b.blocks[sw]['term']
                         # operand of the comparison is one of the counters
-                        for o in v.pv.peel(v.pv.origins_operand(t['discr'])):
+                        for o in v.pv.peel(v.pv.origins_operand(v.guard_operand((atom, vals, sw)))):
                             if o[0] == 'binop':
                                 rv = b.blocks[o[1][0]]['stmts'][o[1][1]]['rv']
                                 a = rv['a']
